@@ -52,17 +52,25 @@ def run_level(ctx, binp):
                 fate = "assertFail" if nm in tampered else ("pass" if nm in answered else "noResult")
             mark = "failing" if i in s["failing"] else ("flaky" if i in s["flaky"] else "none")
             cases.append(dict(fate=fate, mark=mark, fb=False))
-        recs.append(dict(cases=cases, ok=bool(r["ok"] and not r["err"]), peerFault=peer_fault, scn=s, output=r.get("output"), err=r.get("err")))
+        outl = r.get("output") or []
+        named = {ln[len("FAILED:"):].split()[0].rstrip(":").rsplit("/", 1)[-1] for ln in outl if ln.startswith("FAILED:") and len(ln.split()) > 1}
+        unnamed = ["c%d" % (i + 1) for i, c in enumerate(cases) if c["fate"] == "assertFail" and c["mark"] == "none" and "c%d" % (i + 1) not in named]
+        # "started": the run got as far as handing cases out (a run that is refused before that - bad flags, a
+        # client that cannot be started - has nothing to report)
+        started = bool(answered or tampered or any(e.get("ev") in ("req", "resp", "start") for e in r.get("log") or []))
+        recs.append(dict(cases=cases, ok=bool(r["ok"] and not r["err"]), peerFault=peer_fault, scn=s, output=outl, err=r.get("err"),
+                         totalsPrinted=any(ln.startswith("Total") for ln in outl), unnamedFailures=unnamed, started=started))
     trp = os.path.join(ctx.build, "c04run.trace")
-    vf.write_ndjson(trp, [dict(cases=x["cases"], ok=x["ok"], peerFault=x["peerFault"]) for x in recs])
+    vf.write_ndjson(trp, [dict(cases=x["cases"], ok=x["ok"], peerFault=x["peerFault"], totalsPrinted=x["totalsPrinted"],
+                               unnamedFailures=x["unnamedFailures"], started=x["started"]) for x in recs])
     tr = ctx.tlc("Trace_Verdict", "Trace_Verdict.cfg", workers=1, env=dict(VERIF_TRACE=trp), timeout=900)
     if not tr.lines("CONSUMED "):
         raise vf.Machinery("Trace_Verdict did not consume the file")
     for ln in tr.lines("REJECT "):
         x = recs[int(ln) - 1]
         ctx.candidate(dict(level="run", mode=x["scn"]["mode"], fault=x["scn"]["fault"].split(":")[0], ok=x["ok"]),
-                      "Run() returned ok=%s err=%r but the realised fates %s require %s; scenario=%s output=%s" % (
-                          x["ok"], x["err"], json.dumps(x["cases"]), not x["ok"], json.dumps(x["scn"]), x["output"]), x)
+                      "Run() returned ok=%s err=%r, totals printed=%s, failing cases not named=%s; realised fates %s (the specification requires the verdict of the truth table, a totals line and every failing case named); scenario=%s output=%s" % (
+                          x["ok"], x["err"], x["totalsPrinted"], x["unnamedFailures"], json.dumps(x["cases"]), json.dumps(x["scn"]), x["output"]), x)
     ctx.cov["traces_validated_against_impl"] += len(recs)
     ctx.cov["evaluations"] += len(recs)
     ctx.notes["run_level"] = dict(runs=len(recs), accepted=len(recs) - len(tr.lines("REJECT ")),
